@@ -6,7 +6,7 @@ CONSTANTS
   MaxW = 32
   ResSrcs <- T_ResSrcs
   Targets <- T_Targets
-  MaxNum = 200
+  MaxNum = 320
   SpecStep = "realised"
   WinClamp = TRUE
   SeekClamp = TRUE
